@@ -68,6 +68,7 @@ def rules(ctx, tier):
     c03.publish_body_contract(ctx, r, must)
     r.need(3, "commit root, log writes behind the publish, publish contract")
     out.append(r.finish())
+    out.append(one_apply_function(ctx, "R6"))
     return out
 
 
@@ -197,7 +198,7 @@ def one_hash(ctx, r, txn):
         b = pub.body
         sl = Slicer(ctx.world, b)
         regs = [s for s in b.calls() if "INTENT_ADD" in sem_set(ctx.may.site_events(s)) and prog.local_target(s) is not None
-                and b.dominates(s.bb, pub.bb) and s.bb != pub.bb]
+                and ctx.dominates_threaded(b, s.bb, pub.bb) and s.bb != pub.bb]
 
         def hash_args(site):
             res = set()
@@ -399,9 +400,52 @@ def _str_span(V, op, bases, proj=(), depth=0):
         return (s0[0], s0[0] + n) if proj[0] == 0 else (s0[0] + n, s0[1])
     if last in _STR_VIEW and len(args) == 1 and not proj:
         return _str_span(V, args[0], bases, (), depth + 1)
+    if last == "encode" and p.startswith("hex::") and len(args) == 1 and not proj:
+        # the hex string of a run of the hash's bytes is that run of the hash's hex string (two digits per byte)
+        bs = _byte_span(V, args[0], bases)
+        if bs is not None:
+            return (2 * bs[0], None if bs[1] is None else 2 * bs[1])
     if not proj:
         bases.add(V.origin_key(bb))
         return (0, None)
+    return None
+
+
+def _byte_span(V, op, bases, depth=0):
+    """[lo, hi) of a byte array that an operand denotes: `[a[k]]`, `[a[k], a[k+1]]`, `&a[i..j]` (slice-pattern bindings and
+    constant sub-slices), through copies and reborrows.  The array is recorded in `bases`."""
+    pl = place_of(op) if not ("l" in op and "p" in op) else op
+    for _ in range(24):
+        if pl is None or depth > 6:
+            return None
+        for i, e in enumerate(pl["p"]):
+            if isinstance(e, dict) and ("cidx" in e or "sub_from" in e):
+                if e.get("from_end"):
+                    return None
+                root = cfgutil.canon_place(V, {"l": pl["l"], "p": pl["p"][:i]})
+                bases.add(("bytes", root[0], tuple(root[1])))
+                if "cidx" in e:
+                    return (e["cidx"], e["cidx"] + 1)
+                return (e["sub_from"], e["sub_to"])
+        defs = V.assignments().get(pl["l"], [])
+        if len(defs) != 1 or defs[0][1] == "term":
+            return None
+        rv = defs[0][2]
+        if rv["k"] in ("use", "cast"):
+            pl = place_of(rv["op"])
+            continue
+        if rv["k"] == "ref":
+            pl = rv["place"]
+            continue
+        if rv["k"] == "agg" and rv.get("ak") == "array" and rv["ops"]:
+            spans = [_byte_span(V, o, bases, depth + 1) for o in rv["ops"]]
+            if any(x is None or x[1] is None for x in spans):
+                return None
+            for a, b2 in zip(spans, spans[1:]):
+                if a[1] != b2[0]:
+                    return None
+            return (spans[0][0], spans[-1][1])
+        return None
     return None
 
 
@@ -584,8 +628,9 @@ def tiling(ctx, r):
             r.bad("tiles", b, "cannot follow how %s assembles the path from slices of the hex string" % b.path)
             continue
         r.check(len(bases) == 1, "hex-source", b, "all components are slices of one hex string (%s)" % ", ".join(
-            "%s bb%d" % k for k in sorted(bases)), "the path components are cut from different strings: %s" % sorted(bases))
+            str(k) for k in sorted(bases, key=str)), "the path components are cut from different strings: %s" % sorted(bases, key=str))
         fmt = lambda x: "[%s..%s)" % (x[0], "end" if x[1] is None else x[1])
+        seq = [(lo, None if hi == n_hex else hi) for (lo, hi) in seq]
         rs = sorted(seq, key=lambda x: x[0])
         pos = 0
         ok = True
@@ -655,3 +700,31 @@ def _join_order(b, sl):
         else:
             break
     return order
+
+
+def one_apply_function(ctx, rid):
+    """Replay applies a logged operation with the very code that applied it when it was logged: every function that
+    writes the key map on behalf of the replay callback is one the live apply step uses too (a replay-only twin of the
+    apply function is a second implementation that can disagree with the first - in the size it records, say)."""
+    from . import c02
+    from ..ctx import ANCHOR_FIELDS
+    prog = ctx.prog
+    r = Rule(rid, "replay re-applies operations with the function that applied them live: the key map is written on the "
+                  "replay path only by functions the live apply step also uses",
+             "a 'fast' replay-only apply function swaps the hash of an overwritten key but keeps the old size: after a "
+             "restart the key's recorded size is that of its previous content")
+    writers = set(cu.site.body.path for cu in ctx.world.container_uses
+                  if ANCHOR_FIELDS.get(cu.field) == "KEYMAP" and cu.mutable)
+    live = prog.reachable_bodies(ctx.live_roots())
+    cbs = c02.replay_callbacks(ctx)
+    replay = prog.reachable_bodies(cbs)
+    n = 0
+    for p in sorted(writers & set(replay)):
+        n += 1
+        r.check(p in live, "replay-writer:%s" % p.split("::")[-1], prog.bodies[p],
+                "%s writes the key map for replay and for the live path alike" % p,
+                "%s writes the key map only when the log is replayed: live and replayed operations are applied by "
+                "different code" % p)
+    r.check(bool(cbs), "replay-callback", None, "%d replay callback(s)" % len(cbs), "cannot find the replay callback")
+    r.need(2, "replay callback + the functions that write the key map for it")
+    return r.finish()
